@@ -287,7 +287,7 @@ pub fn signature_shapes() -> Vec<(String, String)> {
             let mut found: std::collections::BTreeMap<&str, String> = Default::default();
             let mask16 = BigUint::from(0xffffu32);
             for ctr in 0..(1u64 << 22) {
-                if found.len() == 2 {
+                if found.len() == 3 {
                     break;
                 }
                 let msg = format!("shape #{}", ctr);
@@ -307,6 +307,12 @@ pub fn signature_shapes() -> Vec<(String, String)> {
                 if t_low_zero && !found.contains_key("t-low-16-bits-zero") {
                     found.insert("t-low-16-bits-zero", msg.clone());
                 }
+                // an aligned 16-bit group of zero bits inside the scalar, with non-zero bits above and below it
+                let t = (&r + &sv) % &n;
+                let t_mid_zero = ((&t >> 80usize) & &mask16).is_zero() && !((&t >> 96usize).is_zero()) && !((&t & ((BigUint::from(1u32) << 80usize) - 1u32)).is_zero());
+                if t_mid_zero && !found.contains_key("t-bits-80..95-zero") {
+                    found.insert("t-bits-80..95-zero", msg.clone());
+                }
             }
             found.into_iter().map(|(k, v)| (k.to_string(), v)).collect()
         })
@@ -316,7 +322,7 @@ pub fn signature_shapes() -> Vec<(String, String)> {
 pub fn run(ctx: &Arc<Ctx>) {
     refmodels::selftest::run(&["sm3", "sm2"]).unwrap_or_else(|e| ctx.machinery_error(format!("reference self-test failed: {}", e)));
     let n = sm2::params().n.clone();
-    ctx.set_rule("private keys d x nonces k (via the RNG seam) over {1,2,3,n-2,n-3,2^255,2^128-1,limb patterns,Annex,seeded} with two (ID,message) pairs, keys with (1+d)^-1 in {2, 3, 2^64+1, 2^127+3, 2^191+5, 2^192+2^64} and keys whose low limbs are all ones, plus IDs {default, \"\", 1, 16, 8191 bytes, seeded} x message lengths {0,1,31,32,33,55,56,64,119,4096} x {zero, seeded} with two (d,k) pairs, every message length and every ID length 0..=300 (thorough 1200) with one; key objects whose public point is affine or Jacobian with Z in {2, p-1, seeded} sign and verify identically; ID of 8192 bytes must be refused; pre-searched messages whose digest e is >= n; messages searched at run time so that r||s starts like a DER SEQUENCE (30 3e) and so that r + s has its 16 low bits clear; GM/T 0003.5 Annex A exact; OpenSSL signature corpus. Per case: 64 bytes, r,s in [1,n-1], exact equality with the reference signature for the nonce the seam reports as accepted, reference verifier accepts, library verifier accepts its own and a reference-made signature.");
+    ctx.set_rule("private keys d x nonces k (via the RNG seam) over {1,2,3,n-2,n-3,2^255,2^128-1,limb patterns,Annex,seeded} with two (ID,message) pairs, keys with (1+d)^-1 in {2, 3, 2^64+1, 2^127+3, 2^191+5, 2^192+2^64} and keys whose low limbs are all ones, plus IDs {default, \"\", 1, 16, 8191 bytes, seeded} x message lengths {0,1,31,32,33,55,56,64,119,4096} x {zero, seeded} with two (d,k) pairs, every message length and every ID length 0..=300 (thorough 1200) with one; key objects whose public point is affine or Jacobian with Z in {2, p-1, seeded} sign and verify identically; ID of 8192 bytes must be refused; pre-searched messages whose digest e is >= n; messages searched at run time so that r||s starts like a DER SEQUENCE (30 3e) and so that r + s has its 16 low bits, or bits 80..95, clear; GM/T 0003.5 Annex A exact; OpenSSL signature corpus. Per case: 64 bytes, r,s in [1,n-1], exact equality with the reference signature for the nonce the seam reports as accepted, reference verifier accepts, library verifier accepts its own and a reference-made signature.");
     // d in [1, n-2]: top element n-2; k in [1, n-1]: top element n-1
     let ds = scalar_alphabet(&n, ctx.seed, "c03d", 2);
     let ks = scalar_alphabet(&n, ctx.seed, "c03k", 1);
@@ -354,7 +360,7 @@ pub fn run(ctx: &Arc<Ctx>) {
             cases.push(Case::Sign { d: ANNEX_D.into(), id: None, msg_len: msg.len(), msg_class: format!("hex:{}", hex::encode(msg.as_bytes())), k: ANNEX_K.into(), tag: format!("signature-shape/{}", kind) });
         }
         ctx.cov("searched_signature_shapes", json!(found.iter().map(|(k, _)| k.clone()).collect::<Vec<_>>()));
-        if found.len() != 2 {
+        if found.len() != 3 {
             ctx.machinery_error("signature-shape search found nothing");
         }
     }
